@@ -28,6 +28,23 @@ def mutants(r, s, n):
     return out
 
 
+def c10_mutate(r, b):
+    b = bytearray(b)
+    for _ in range(r.choice([1, 1, 2])):
+        k = r.randrange(4)
+        pos = r.randrange(len(b) + 1)
+        ch = r.choice(b'":\\ aA*\x00\xff\xc3{}u')
+        if k == 0 or not b:
+            b.insert(pos, ch)
+        elif k == 1:
+            del b[min(pos, len(b) - 1)]
+        elif k == 2:
+            b[min(pos, len(b) - 1)] = ch
+        else:
+            b[pos:pos] = b[max(0, pos - 3):pos]
+    return bytes(b)
+
+
 def run(ctx):
     b = lib.standard_build(ctx)
     if not lib.require_builds(ctx, b):
@@ -67,7 +84,7 @@ def run(ctx):
     vals = [gen.vlong(z) for z in gen.LONGS] + [gen.vdec(z) for z in gen.DECS + longs[:60]] + [gen.vdur(z) for z in gen.DURS + longs[:60]] + \
            [gen.vdt(z) for z in gen.DTS + [r.randrange(gen.MIN64 + gen.DAY, gen.MAX64) for _ in range(60)]] + [gen.vip(t) for t in gen.IPS] + \
            [gen.vstr(s) for s in gen.STRINGS + ['"', '\\', "'", '\n\t\r', '\x7f', '\u0085', '​', '﻿', '�', '\U0001f600', '́a', 'a\x00b', '*', '\\*', '${x}']] + \
-           [gen.vent(t, i) for t in gen.ETYPES for i in gen.EIDS + ['"', '\\', '\n', 'é']] + \
+           [gen.vent(t, i) for t in gen.ETYPES for i in gen.EIDS + ['"', '\\', '\n', 'é', 'C:\\x\\', 'a\\\\', '\\"', '"\\', 'a::"b', '::"', 'x\\"y"', '\u2028', '*']] + \
            [gen.vrec([(k, gen.vlong(1))]) for k in gen.KEYS + ['"', '\\', '\x07', '\x7f', 'if', 'true', 'a b', '1a', '​']]
     for s in range(0x20):
         vals.append(gen.vstr(chr(s)))
@@ -123,4 +140,27 @@ def run(ctx):
     for c in scal[:2] + cv[:2]:
         ctx.sample(dict(case=c[:300], go=(go.get(lib.case_id(c)) or gcv.get(lib.case_id(c)) or '')[:200]))
     ctx.oblige('correspondence: scalar parsers/printers/constructors = model on %d cases' % len(scal), 'correspondence', not mism)
+    # EntityUID.UnmarshalCedar / UnmarshalBinary = Impl/UidText.parse_uid: printed forms (written here with the escapes the printer uses), their byte
+    # mutants, hand-made shapes around the separator and the quotes
+    def q(s_):
+        out = ''
+        for ch in s_:
+            out += {'"': '\\"', '\\': '\\\\', '\n': '\\n', '\t': '\\t', '\r': '\\r', '\0': '\\0'}.get(ch, ch)
+        return '"' + out + '"'
+    TYPES = gen.ETYPES + ['A::B::C', 'a', '', 'A:', 'A::', ':', 'A b', 'é', 'A::"B', '"']
+    IDS = gen.EIDS + ['"', '\\', '\n', 'é', 'C:\\x\\', 'a\\\\', '\\"', '"\\', 'a::"b', '::"', 'x"y', '*', '\\*', '\U0001f600', 'a b', "'"]
+    texts = [t + '::' + q(i) for t in TYPES for i in IDS]
+    texts += ['', '::', '::"', '::""', 'A::"', 'A::""', 'A::"a', 'A::a"', 'A::"a"b"', 'A::"a""', 'A::"\\"', 'A::"\\\\"', 'A::"\\u{41}"', 'A::"\\u{110000}"', 'A::"\\x41"', 'A::"\\q"',
+              'A::"a"::"b"', 'A::B"c"', 'A"::"b"', ' A::"a"', 'A::"a" ', 'A ::"a"', 'A:: "a"', 'A::"\\*"', 'A::"*"', 'A::"\xff"', 'A:::"a"', 'A::::"a"', '"::"a"', 'A::"a\\"']
+    ucases = []
+    for t in texts:
+        tb = t.encode('utf-8', 'surrogateescape') if isinstance(t, str) else t
+        ucases.append(case('u%d' % len(ucases), 'uidparse', S(tb)))
+        for _ in range(2 if quick else 12):
+            ucases.append(case('u%d' % len(ucases), 'uidparse', S(c10_mutate(r, tb))))
+    go_u, mo_u, mism_u = lib.differential(ctx, ucases, 'uidparse', nontrivial=lambda c, g_: g_.startswith('(ok'),
+                                          describe='EntityUID.UnmarshalCedar: Go and the Coq model (Impl/UidText.v parse_uid) disagree')
+    ctx.extra['uidparse'] = dict(cases=len(ucases), accepted=sum(1 for c in ucases if go_u.get(lib.case_id(c), '').startswith('(ok')))
+    ctx.oblige('correspondence: EntityUID.UnmarshalCedar (= UnmarshalBinary) = UidText.parse_uid on %d texts (printed forms over types and ids that need escaping, shapes around '
+               'the separator and the quotes, byte mutants)' % len(ucases), 'correspondence', not mism_u)
     lib.epilogue(ctx)
